@@ -415,7 +415,17 @@ impl Driver for ExecDriver {
         if encodes == 2 {
             c.class("second_encoding_executed");
         }
-        let ap = match run_plan_n(&bytes, &plan, true, encodes) {
+        // one time in four (module paths) an import is added first: every local function index
+        // shifts while the probes are lowered (host.log stays function 0)
+        let pre: Vec<PreEdit> = if !component && c.t.chance(1, 4) {
+            c.class("pre_edit:add_import_func");
+            vec![PreEdit::AddImportFunc(0)]
+        } else {
+            vec![]
+        };
+        // (a second encode after a re-indexing edit is C05's known finding: one encode then)
+        let encodes = if pre.is_empty() { encodes } else { 1 };
+        let ap = match run_plan_edit(&bytes, &plan, true, encodes, &pre) {
             Ok(a) => a,
             Err(o) => return by_trigger(o),
         };
@@ -449,7 +459,12 @@ impl Driver for ExecDriver {
             m1.expected.clear();
             m2.log.clear();
             let r1: CallResult = m1.call(*f, args.clone());
-            let r2: CallResult = m2.call(*f, args.clone());
+            // the same export in the instrumented module (its function index may have shifted)
+            let name = prog.exports.iter().find(|(_, g)| g == f).map(|(n, _)| n.as_str()).unwrap_or("");
+            let Some(f2) = prog2.exports.iter().find(|(n, _)| n == name).map(|(_, g)| *g) else {
+                return by_trigger(fail("export-missing", format!("export {:?} of the original is missing in the instrumented module", name)));
+            };
+            let r2: CallResult = m2.call(f2, args.clone());
             match &r1 {
                 Err(Stop::OutOfBudget) => return Outcome::Discard("original exceeds the step budget"),
                 Err(Stop::Unsupported(_)) => return Outcome::Discard("outside the interpreted subset"),
